@@ -1557,14 +1557,34 @@ def model_lines_for_config(case, obs) -> list[tuple[str, Any]]:
         # the formulation does not expose the functions the model expects (the oracle reports the count)
         out.append(("nfuncs " + str(len(funcs)), ("nfuncs", obs)))
         return out
+    rounded = bool(obs.get("rounded"))
+    if form == "IDF" and cfg.get("eq") and "current" in obs and not obs.get("doe"):
+        # start_at_equilibrium: the model checks the exact solution at the CURRENT design values of the design
+        # space (certificate supplied by the harness) and answers the new current value
+        cur0 = [P(a) for v in case["ds"] for a in v["value"]]
+        x0 = {v["name"]: [P(a) for a in v["value"]] for v in case["ds"] if v["name"] in udn}
+        sol0 = exact_mda(case, x0)
+        if sol0 is not None:
+            ytok = " ".join(f"y.{k}={_rl(sol0[0][k])}" for k in sorted(sol0[0]))
+            out.append((f"equil cur={_rl(cur0)} {ytok}".rstrip(), ("equil", obs)))
+    # the history of jac calls on the function objects of this formulation (the harness holds every array)
+    hold = not obs.get("doe")
+    held: list[tuple[Any, int, bool, bool]] = []
+    if hold:
+        out.append((f"hreset {len(funcs)}", ("ok",)))
+    idf_tag = "idfp" if cfg.get("par") else "idf"
     for rec in obs["evals"]:
         if "error" in rec or len(rec.get("vals", [])) != len(funcs):
             continue
         xv = [F(a) for n in names for a in rec["point"][n]]
         if form == "IDF":
+            exact = is_dyadic_small(rec["point"]) and not rounded
             for k, (kind, what) in enumerate(funcs):
-                line = f"eval idf {int(cfg['norm'])} {kind} {what} x={_rl(xv)}" + fmt_tok.get(k, "")
-                out.append((line, ("eval", rec, k, is_dyadic_small(rec["point"]) and not obs.get("rounded"), False)))
+                line = f"eval {idf_tag} {int(cfg['norm'])} {kind} {what} x={_rl(xv)}" + fmt_tok.get(k, "")
+                if hold and "held_jacs" in rec:
+                    line += f" hold={k}"
+                    held.append((rec, k, exact, False))
+                out.append((line, ("eval", rec, k, exact, False)))
         else:
             x = {n: [F(a) for a in rec["point"][n]] for n in udn}
             sol = exact_mda(case, x)
@@ -1576,7 +1596,12 @@ def model_lines_for_config(case, obs) -> list[tuple[str, Any]]:
             wtok = " ".join(f"w.{k}.{n}={_mat(W[k, n])}" for k in cp for n in names)
             for k, (kind, what) in enumerate(funcs):
                 line = f"eval {tag} {what} x={_rl(xv)} {ytok} {wtok}".rstrip() + fmt_tok.get(k, "")
+                if hold and "held_jacs" in rec:
+                    line += f" hold={k}"
+                    held.append((rec, k, False, True))
                 out.append((line, ("eval", rec, k, False, True)))
+    if hold:
+        out.append(("held", ("held", held, cfg_key(cfg))))
     return out
 
 
@@ -1629,6 +1654,40 @@ def diff_model(lines, plan, n_def, answers, res: Result) -> list[dict[str, Any]]
                 res.traces_validated += 1
         elif kind == "nfuncs":
             dis.append({"line": line, "model": line.split()[1], "impl": exp[1].get("n_funcs")})
+        elif kind == "ok":
+            if ans != "ok":
+                dis.append({"line": line, "model": ans, "impl": "ok"})
+        elif kind == "equil":
+            obs = exp[1]
+            cur = [a for n in obs["names"] for a in obs["current"][n]]
+            if ans.startswith("E") or ans == "bad-op":
+                dis.append({"line": line, "model": ans, "impl": cur, "cfg": cfg_key(obs["cfg"])})
+                continue
+            want = [] if ans == "[]" else [Fraction(t) for t in ans.split(",")]
+            m = cmp_vec(cur, want, BOUND)
+            if m:
+                dis.append({"line": line, "model": ans[:400], "impl": cur, "diff": "current value after start_at_equilibrium: " + m,
+                            "cfg": cfg_key(obs["cfg"])})
+            else:
+                res.traces_validated += 1
+        elif kind == "held":
+            _, held, ck = exp
+            mats = [] if ans == "[]" else ans.split("|")
+            if len(mats) != len(held):
+                # an eval line of this history was refused by the model (reported on that line)
+                continue
+            for (rec, k, exact, mda), mtxt in zip(held, mats):
+                rows = [] if mtxt == "[]" else [([] if r == "[]" else [Fraction(t) for t in r.split(",")]) for r in mtxt.split(";")]
+                b = BOUND if mda else (Fraction(0) if exact else EBOUND)
+                m = cmp_mat(rec["held_jacs"][k], rows, b)
+                if m and b == 0:
+                    m = cmp_mat(rec["held_jacs"][k], rows, EBOUND)  # non power-of-two normalisation
+                if m:
+                    dis.append({"line": line, "model": mtxt[:400], "impl": rec["held_jacs"][k], "cfg": ck,
+                                "diff": f"array held since the call at the {rec['kind']}/{rec['tag']} point, function {k}: {m}"})
+                    break
+            else:
+                res.traces_validated += 1
         elif kind == "eval":
             _, rec, k, exact, mda = exp
             pm = parse_model_eval(ans)
